@@ -55,6 +55,7 @@ static const DirCode *BYID[27];
 static vh::Stats st;
 static uint64_t g_case = 0;
 static int g_trace = 0;
+static long g_watch = -1;
 static std::string g_prefix;
 #define VH_VIOL2(key, caseid, ...) VH_VIOL((g_prefix + key).c_str(), caseid, __VA_ARGS__)
 static uint64_t g_maxtasks = 300000ull;
@@ -125,16 +126,30 @@ static void oracle(const World &w, const std::vector<Pk> &pk, Outcome &out, std:
   out.absorbed.assign(pk.size(), 0); out.pos.assign(pk.size() * 3, 0.);
   info.resize(pk.size());
   LD h[3]; for (int d = 0; d < 3; ++d) h[d] = (LD)w.S[d] / w.Ng[d];
-  // lower bound of the opacity anywhere in the box: n_min * min(xH, xHe) * (sigma_H + sigma_He)
-  LD nxmin = INFINITY;
-  for (int g = 0; g < nc; ++g) nxmin = std::min(nxmin, (LD)w.dens[g] * std::min((LD)w.xH[g], (LD)w.xHe[g]));
+  // A ray crossing a wall close to an edge / corner (or starting on a wall) may, within round-off,
+  // clip a neighbouring cell for a length of order delta (C02 tolerance model).  The optical depth
+  // that may cost is bounded with the thickest cell among the 27 around the cell, the path length
+  // that a given optical depth corresponds to with the thinnest one:
+  //   NBmax[g] = max n*max(xH,xHe), NBmin[g] = min n*min(xH,xHe) over the neighbourhood of g.
+  std::vector<LD> NBmax(nc, 0), NBmin(nc, INFINITY);
+  for (int g = 0; g < nc; ++g) {
+    const int gi[3] = {g / (w.Ng[1] * w.Ng[2]), (g / w.Ng[2]) % w.Ng[1], g % w.Ng[2]};
+    for (int a = -1; a <= 1; ++a) for (int b = -1; b <= 1; ++b) for (int c = -1; c <= 1; ++c) {
+      int n[3] = {gi[0] + a, gi[1] + b, gi[2] + c}; bool ok = true;
+      for (int d = 0; d < 3; ++d) if (n[d] < 0 || n[d] >= w.Ng[d]) { if (w.per[d]) n[d] = (n[d] + w.Ng[d]) % w.Ng[d]; else ok = false; }
+      if (!ok) continue;
+      const int g2 = w.gidx(n[0], n[1], n[2]);
+      NBmax[g] = std::max(NBmax[g], (LD)w.dens[g2] * std::max((LD)w.xH[g2], (LD)w.xHe[g2]));
+      NBmin[g] = std::min(NBmin[g], (LD)w.dens[g2] * std::min((LD)w.xH[g2], (LD)w.xHe[g2]));
+    }
+  }
   const LD diag = std::sqrt((double)(w.S[0] * w.S[0] + w.S[1] * w.S[1] + w.S[2] * w.S[2]));
-  std::vector<int> stamp(nc, -1);
-  struct Seg { int g; LD len; };
+  struct Seg { int g; LD len; LD kap; bool edge; };
   std::vector<Seg> segs;
   std::vector<LD> bp;
   for (size_t ip = 0; ip < pk.size(); ++ip) {
     const Pk &p = pk[ip];
+    const LD ssum = (LD)p.sigma[ION_H_n] + (LD)p.sigma[ION_He_n];
     LD Sexit = INFINITY;
     double mindir = 1., pmax = 0., Smax = 0.;
     for (int d = 0; d < 3; ++d) {
@@ -149,8 +164,8 @@ static void oracle(const World &w, const std::vector<Pk> &pk, Outcome &out, std:
       }
     }
     segs.clear();
-    LD cum = 0, sabs = -1, ksum = 0, kmin = INFINITY;
-    bool done = false;
+    LD cum = 0, sabs = -1;
+    bool done = false, pending_edge = false;
     for (int chunk = 0; !done; ++chunk) {
       const LD s0 = chunk * diag, s1 = std::min((LD)(chunk + 1) * diag, Sexit);
       if (!(s1 > s0)) break;
@@ -168,7 +183,11 @@ static void oracle(const World &w, const std::vector<Pk> &pk, Outcome &out, std:
       std::sort(bp.begin(), bp.end());
       for (size_t i = 0; i + 1 < bp.size() && !done; ++i) {
         const LD a = bp[i], b = bp[i + 1];
-        if (!(b > a)) continue;
+        if (!(b > a)) { // two walls crossed at the same parameter: an edge or a corner
+          pending_edge = true;
+          if (!segs.empty()) segs.back().edge = true;
+          continue;
+        }
         const LD mid = 0.5L * (a + b);
         int gi[3]; bool inside = true;
         for (int d = 0; d < 3; ++d) {
@@ -184,11 +203,11 @@ static void oracle(const World &w, const std::vector<Pk> &pk, Outcome &out, std:
         if (!inside) { done = true; break; }
         const int g = w.gidx(gi[0], gi[1], gi[2]);
         const LD kap = (LD)w.dens[g] * ((LD)p.sigma[ION_H_n] * (LD)w.xH[g] + (LD)p.sigma[ION_He_n] * (LD)w.xHe[g]);
-        kmin = std::min(kmin, kap);
         LD len = b - a;
         if (cum + kap * len >= (LD)p.tau) { len = ((LD)p.tau - cum) / kap; sabs = a + len; done = true; }
-        cum += kap * len; ksum += kap;
-        segs.push_back({g, len});
+        cum += kap * len;
+        segs.push_back({g, len, kap, pending_edge});
+        pending_edge = false;
       }
       if (s1 >= Sexit) break;
       if (chunk > 200000) { VH_VIOL2("oracle/runaway", g_case, "packet %zu never ends", ip); break; }
@@ -196,39 +215,75 @@ static void oracle(const World &w, const std::vector<Pk> &pk, Outcome &out, std:
     OraclePk &I = info[ip];
     I.nseg = (int)segs.size();
     I.delta = (16 + 2 * I.nseg) * EPS * (Smax + pmax) / mindir;
+    // crossings closer together than 4 delta count as an edge / corner as well
+    for (size_t i = 0; i < segs.size(); ++i)
+      if (segs[i].len <= 4 * I.delta) {
+        segs[i].edge = true;
+        if (i > 0) segs[i - 1].edge = true;
+        if (i + 1 < segs.size()) segs[i + 1].edge = true;
+      }
+    // the cell the packet starts in: it may be left at once with a round-off sized step; if the start
+    // is within the position uncertainty of a wall, the cell across that wall may be clipped
+    int g0;
+    bool start_edge = false;
+    {
+      int gi[3];
+      for (int d = 0; d < 3; ++d) {
+        const LD x = ((LD)p.p[d] - (LD)w.A[d]) / h[d];
+        long k = (long)std::floor((double)x);
+        if (std::fabs((double)(x - std::floor((double)x + 0.5))) * h[d] <= 4 * I.delta) start_edge = true;
+        gi[d] = (int)std::min<long>(std::max<long>(k, 0), w.Ng[d] - 1);
+      }
+      g0 = w.gidx(gi[0], gi[1], gi[2]);
+      if (start_edge && !segs.empty()) segs.front().edge = true;
+    }
+    LD ksum = start_edge ? NBmax[g0] * ssum : 0;
+    for (const Seg &sg : segs) ksum += sg.edge ? NBmax[sg.g] * ssum : sg.kap;
     const LD dtau = 2 * I.delta * ksum + (8 + 2 * I.nseg) * EPS * (LD)p.tau;
-    // conservative: the thinnest cell the packet met (or the thinnest of the box scale handed in)
-    const LD kref = std::min(kmin, nxmin * ((LD)p.sigma[ION_H_n] + (LD)p.sigma[ION_He_n]));
-    I.ds = dtau / kref;
+    // An uncertainty dtau of the optical depth moves the absorption point by dtau / kappa of the cell(s)
+    // in which the target can be reached: the last piece, the pieces before it as long as the optical
+    // depth summed up to their end is within dtau of the target, and their neighbours at an edge.
+    const LD smin = std::min((LD)p.sigma[ION_H_n], (LD)p.sigma[ION_He_n]);
+    LD kref = INFINITY;
+    size_t first_slack = segs.size();
+    if (sabs >= 0) {
+      LD back = 0; // optical depth between the end of piece i and the absorption point
+      for (size_t i = segs.size(); i-- > 0;) {
+        kref = std::min(kref, segs[i].edge ? NBmin[segs[i].g] * smin : segs[i].kap);
+        first_slack = i;
+        back += segs[i].kap * segs[i].len;
+        if (back > dtau) break;
+      }
+      if (first_slack == 0 && start_edge) kref = std::min(kref, NBmin[g0] * smin);
+    }
+    I.ds = std::isfinite((double)kref) ? dtau / kref : 0;
     I.tie_escape = false;
+    if (g_watch >= 0 && (long)ip == g_watch)
+      for (const Seg &sg : segs) std::printf("WATCH oracle packet %zu piece in cell %d length %.17Lg edge %d (sabs %.17Lg, cum tau %.17Lg)\n", ip, sg.g, sg.len, (int)sg.edge, sabs, cum);
     if (sabs >= 0) {
       out.absorbed[ip] = 1;
       for (int d = 0; d < 3; ++d) out.pos[ip * 3 + d] = (double)((LD)p.p[d] + sabs * (LD)p.dir[d]);
     } else if (std::fabs((double)(cum - (LD)p.tau)) <= dtau) I.tie_escape = true;
     if (sabs >= 0 && std::isfinite((double)Sexit) && std::fabs((double)(sabs - Sexit)) <= I.ds + 2 * I.delta) I.tie_escape = true;
-    const LD tol = 2 * I.delta + I.ds;
-    // the cell the packet starts in (it may be left at once, with a round-off sized deposit)
-    {
-      int gi[3];
-      for (int d = 0; d < 3; ++d) {
-        long k = (long)std::floor((double)(((LD)p.p[d] - (LD)w.A[d]) / h[d]));
-        gi[d] = (int)std::min<long>(std::max<long>(k, 0), w.Ng[d] - 1);
-      }
-      segs.push_back({w.gidx(gi[0], gi[1], gi[2]), 0});
-    }
-    for (const Seg &s : segs) {
+    segs.push_back({g0, 0, 0, start_edge});
+    for (size_t is = 0; is < segs.size(); ++is) {
+      const Seg &s = segs[is];
+      // the absorption slack only concerns the pieces in which the target can be reached (and, through
+      // the start cell entry, a packet absorbed before it left its first cell)
+      const bool slack = sabs >= 0 && (is + 1 == segs.size() ? first_slack == 0 : is >= first_slack);
+      const LD tol = 2 * I.delta + (slack ? I.ds : 0);
       for (int q = 0; q < 3; ++q) out.J[s.g * 3 + q] += (LD)p.w * (LD)p.sigma[QION[q]] * s.len;
-      // tolerance goes to the cell and its 26 neighbours
+      // the tolerance goes to the cell itself and, at edges / corners / a start on a wall, to its 26 neighbours
       const int gi[3] = {s.g / (w.Ng[1] * w.Ng[2]), (s.g / w.Ng[2]) % w.Ng[1], s.g % w.Ng[2]};
-      for (int a = -1; a <= 1; ++a) for (int b = -1; b <= 1; ++b) for (int c = -1; c <= 1; ++c) {
+      const int r = s.edge ? 1 : 0;
+      for (int a = -r; a <= r; ++a) for (int b = -r; b <= r; ++b) for (int c = -r; c <= r; ++c) {
         int n[3] = {gi[0] + a, gi[1] + b, gi[2] + c}; bool ok = true;
         for (int d = 0; d < 3; ++d) {
           if (n[d] < 0 || n[d] >= w.Ng[d]) { if (w.per[d]) n[d] = (n[d] + w.Ng[d]) % w.Ng[d]; else ok = false; }
         }
         if (!ok) continue;
+        // (per piece, not per packet: with periodic wrap a packet may pass the same cell many times)
         const int g2 = w.gidx(n[0], n[1], n[2]);
-        if (stamp[g2] == (int)ip) continue;
-        stamp[g2] = (int)ip;
         for (int q = 0; q < 3; ++q) Jtol[g2 * 3 + q] += (LD)p.w * (LD)p.sigma[QION[q]] * tol;
       }
     }
@@ -462,6 +517,9 @@ static bool run_real(const World &w, const Split &sp, const std::vector<Pk> &pk,
           if (ip >= pk.size()) { VH_VIOL2("handover/identity", g_case, "unknown packet id %u among the absorbed", ip); ok = false; continue; }
           if (state[ip].harvested) { VH_VIOL2("absorbed/twice", g_case, "packet %u absorbed twice", ip); ok = false; }
           state[ip].harvested = true;
+          if (g_watch >= 0 && (long)ip == g_watch)
+            std::printf("WATCH packet %u absorbed in subgrid %zu at %a,%a,%a (%.17g,%.17g,%.17g) remaining tau %a, %d hand-overs\n", ip, (size_t)buf.get_subgrid_index(), buf[i].get_position()[0], buf[i].get_position()[1], buf[i].get_position()[2],
+                        buf[i].get_position()[0], buf[i].get_position()[1], buf[i].get_position()[2], buf[i].get_target_optical_depth(), state[ip].handovers);
           out.absorbed[ip] = 1;
           for (int d = 0; d < 3; ++d) out.pos[ip * 3 + d] = buf[i].get_position()[d];
           // must lie in the subgrid the buffer belongs to
@@ -558,7 +616,12 @@ static void compare(const World &w, const Split &sp, const std::vector<Pk> &pk, 
         VH_VIOL(ckey(what, "/estimator").c_str(), g_case, "%s: cell %d (%d,%d,%d) ion %d: %.17Lg vs %.17Lg (difference %Lg, tolerance %Lg) | %s", what, g, g / (w.Ng[1] * w.Ng[2]), (g / w.Ng[2]) % w.Ng[1], g % w.Ng[2], QION[q], x, y, x - y, tol, wstr(w, sp).c_str());
         ++bad; break;
       }
-      if (y != 0) st.maxd(std::string(what) + "_max_estimator_error_over_tolerance", (double)(std::fabs((double)(x - y)) / tol));
+      if (y != 0) {
+        st.maxd(std::string(what) + "_max_estimator_error_over_tolerance", (double)(std::fabs((double)(x - y)) / tol));
+        st.maxd(std::string(what) + "_max_tolerance_relative_to_estimator", (double)(tol / std::fabs((double)y)));
+        if (tol > 1e-6 * std::fabs((double)y)) st.inc("cells_with_relative_tolerance_above_1e-6");
+        if (tol > 1e-3 * std::fabs((double)y)) st.inc("cells_with_relative_tolerance_above_1e-3");
+      }
     }
   bad = 0;
   for (size_t ip = 0; ip < pk.size() && bad < 3; ++ip) {
@@ -591,6 +654,7 @@ int main(int argc, char **argv) {
   const int64_t only = (int64_t)vh::arg_u64(argc, argv, "--only", (uint64_t)-1);
   omp_set_num_threads(1);
   g_trace = (int)vh::arg_u64(argc, argv, "--trace-after", 0);
+  g_watch = (long)vh::arg_u64(argc, argv, "--watch", (uint64_t)-1);
   g_maxtasks = vh::arg_u64(argc, argv, "--max-tasks", 300000ull);
   for (int i = 0; i < 27; ++i) BYID[DIRS[i].id] = &DIRS[i];
   if (vh::arg_flag(argc, argv, "--pinned")) {
